@@ -139,7 +139,8 @@ class Ctx:
             return model.SubmodelElementCollection(f"c{o}", value=items[0])
         if k == "sml":
             CLS = {0: model.Property, 1: model.Range, 2: model.MultiLanguageProperty,
-                   3: model.SubmodelElementCollection}
+                   3: model.SubmodelElementCollection, 10: model.SubmodelElement, 11: model.DataElement,
+                   12: model.EventElement}
             VT = {0: None, 1: model.datatypes.Int, 2: model.datatypes.String}
             return model.SubmodelElementList(f"l{o}", CLS[lc[0]], value=items[0],
                                              semantic_id_list_element=_sem(lc[2]),
@@ -487,7 +488,7 @@ def gen_pool(rng, kind):
     for i in range(n):
         if hooks:
             name = None if rng.random() < 0.8 else rng.randrange(3)
-            cls = rng.choice([0, 0, 0, 0, 1, 2])
+            cls = rng.choice([0, 0, 0, 0, 1, 2, 3])
             vt = rng.choice([1, 1, 1, 2]) if cls < 2 else 0
             sem = rng.choice([None, None, 0, 0, 1])
         else:
@@ -515,7 +516,7 @@ def gen_case(rng, kind, maxlen, extra=False):
     def construct_op(o):
         lc = None
         if hooks:
-            lc = (rng.choice([0, 0, 0, 2]), 0, rng.choice([None, None, 0]))
+            lc = (rng.choice([0, 0, 0, 0, 2, 10, 11, 12]), 0, rng.choice([None, None, 0]))
             lc = (lc[0], 1 if lc[0] < 2 else 0, lc[2])
         per = nsets
         itemss = [some(rng.choice([0, 0, 0, 1, 2, 3])) for _ in range(per)]
